@@ -371,6 +371,9 @@ def dict_mutations(R, ir, fmt, wrappers, rng, tier, repro):
     try:
         B = gen.Built(ir)
         inp, outp = c02.make_protocols(conf, 'soft')
+        if fmt == 'jsonrpc':
+            from spyne.protocol.json import JsonDocument
+            outp = JsonDocument()
         app = B.app(inp, outp)
         server = ServerBase(app)
     except Exception as e:
@@ -529,6 +532,9 @@ def run_universe(R, seed, uid, tier):
         dconfs = rng.sample(dconfs, 2)
     for fmt, wrappers in dconfs:
         dict_mutations(R, ir, fmt, wrappers, rng, tier, repro)
+    # JsonRpc('spyne'): the JSON conventions inside a versioned envelope, as input protocol
+    if uid % 2 == 0 or tier != 'quick':
+        dict_mutations(R, ir, 'jsonrpc', False, rng, tier, repro)
 
 
 def run(spec, R):
